@@ -115,6 +115,16 @@ CHECKS = {
               "loaded with loadArmFromURDF; num_dof, joint order, names and written limits must match an independent parser "
               "exactly and FK must match the file's semantics to 1e-6 on 20 joint vectors inside the limits each."),
         ref="DESIGN.md section 5 / C13"),
+    "C14": dict(
+        technique="runtime monitoring: byte/identity/memory-extent fingerprints of operands around every catalogued operation, "
+                  "np.shares_memory alias check, result-mutation probe, __defaults__ scanner",
+        text=("4.8e4 (quick) / 4.8e6 (thorough) applications of ~100 catalogued operations (tm/Screw/Wrench operators in both operand "
+              "positions, inv, copies, get-accessors, frame/distance/midpoint/gap/path helpers, Arm and SP constructors followed by "
+              "use, every function of the Modern Robotics port): operands are fingerprinted before and after, results of operators, "
+              "copies and accessors must not share memory with operands and mutating them in every way must leave the operands "
+              "intact; default-constructed objects are re-checked after abusing earlier ones and every default argument in scope is "
+              "fingerprinted before and after the run."),
+        ref="DESIGN.md section 5 / C14"),
     "C15": dict(
         technique="runtime monitoring: exact rational oracle, exhaustive lattice enumeration of the real function",
         text=("RRTStar.obstruction is called on real PathNode/tm objects and compared with exact rational slab "
@@ -123,6 +133,16 @@ CHECKS = {
               "segment at least once plus box sets and robust float cases.  Outside the lattice the claim is "
               "sampling only."),
         ref="DESIGN.md section 5 / C15"),
+    "C16": dict(
+        technique="runtime monitoring: recording callback/index wrappers + offline replay of the insertion log against a brute-force "
+                  "nearest-neighbour oracle and the exact collision oracle",
+        text=("128 (quick) / 5e3 (thorough) planner runs over seeds, obstruction layouts (boxes, generated terrain), bounds, budgets "
+              "1..400, both distance modes, neighbour limits 1..20 and caller-supplied callbacks.  Every generated sample, collision "
+              "query, neighbour query and insertion is logged with a sequence number; offline the log is replayed: acceptance band "
+              "w.r.t. the brute-force nearest node, examined set = k-NN, chosen parent = cheapest collision-free candidate, cost "
+              "recurrence, edges free under the supplied detector and under the exact C15 oracle, rooted acyclic tree, node count, "
+              "path = start .. parent chain .. goal."),
+        ref="DESIGN.md section 5 / C16"),
     "C17": dict(
         technique="sanitizer: Numba array-bounds instrumentation (NUMBA_BOUNDSCHECK=1) + three-way differential execution "
                   "(bounds-checked / compiled / interpreted) + dispatcher vs py_func on array-layout variants",
